@@ -410,6 +410,15 @@ def main_c30(run):
              Expression([Symbol("quasiquote"), Expression([Symbol("unquote-splice"), Symbol("x")])]),
              Float("NaN"), Float("-0.0"), Complex("1-0j"), Integer(0), Dict([Integer(1)]),
              Expression([Symbol("quote"), Expression([Symbol("quote"), Symbol("a")])])]
+    # every combination of the extra attributes, at top level and nested in a list, an expression and an f-string
+    import itertools
+    grid = [String("q", brackets=b) for b in (None, "", "d", "==")]
+    for b, tst in itertools.product((None, "", "f"), (False, True)):
+        for conv, ex in itertools.product((None, "r", "s", "a"), (None, "x", "x ")):
+            comp = FComponent([Symbol("x"), String(">5")], conversion=conv, expression=ex, is_tstring=tst)
+            grid.append(FString([String("a"), comp], brackets=b, is_tstring=tst))
+    built += grid + [List([g]) for g in grid] + [Expression([Symbol("f"), g]) for g in grid] + \
+        [FString([FComponent([g])]) for g in grid]
     texts = [t for t in mutated_programs(rng, 600 if q else 30000)]
     models = list(built)
     for t in texts:
